@@ -9,11 +9,14 @@ SU_FAMILIES = ["a12", "a17", "a18", "a19", "a21", "a22"]
 def impl(case):
     import random
     from paulie import get_pauli_string, get_optimal_su_2_n_generators
+    if case.get("op") == "screen":
+        return {"dependents": [str(s) for s in get_pauli_string(case["gens"]).get_dependents()]}
     random.seed(case["seed"])
     c = get_pauli_string(case["gens"])
     ind = [str(s) for s in c.copy().get_independents()]
+    deps = [str(s) for s in c.copy().get_dependents()]
     out = get_optimal_su_2_n_generators(c)
-    return {"out": None if out is None else [str(s) for s in out], "independents": ind,
+    return {"out": None if out is None else [str(s) for s in out], "independents": ind, "dependents": deps,
             "pairs": None if out is None else out.get_anticommutation_pair()}
 
 
@@ -37,15 +40,33 @@ def main():
             bases.append(("universal k=%d" % k, n, U))
             extra = U + [G.uniform(ck.rng, n) for _ in range(ck.rng.randint(1, 3))]
             bases.append(("universal+random", n, [s for s in extra if set(s) != {"I"}]))
+    # dense random generating sets: here the classifier re-queues cut-off vertices in transformed form, so that reported dependents
+    # need not be members of the input — the case in which the optimiser's starting set (get_independents) is easiest to get wrong
+    for n, lo, hi, cnt in ((4, 10, 14, 60 if ck.quick else 400), (5, 14, 18, 20 if ck.quick else 150)):
+        for _ in range(cnt):
+            g = list(dict.fromkeys(G.uniform(ck.rng, n) for _ in range(ck.rng.randint(lo, hi))))
+            bases.append(("dense-random", n, [s for s in g if set(s) != {"I"}]))
+    # ... and screened ones: among many dense collections (classification only, cheap) those whose reported dependents are not all members
+    scr = []
+    for _ in range(3000 if ck.quick else 20000):
+        n = ck.rng.choice((4, 4, 5))
+        g = list(dict.fromkeys(G.uniform(ck.rng, n) for _ in range(ck.rng.randint(10, 14) if n == 4 else ck.rng.randint(14, 18))))
+        scr.append({"op": "screen", "gens": [s for s in g if set(s) != {"I"}], "n": n})
+    sres = ck.impl("c20", scr, per_case_s=30, procs=15)
+    picked = [c for c, r in zip(scr, sres) if "exc" not in r and any(d not in c["gens"] for d in r["dependents"])]
+    for c in picked[:25 if ck.quick else 200]:
+        bases.append(("dense-random", c["n"], c["gens"]))
     # keep only inputs whose closure really is all of su(2^n)
     cards = ck.oracle(["closure_card %d %s" % (n, " ".join(g)) for _, n, g in bases])
     bases = [b for b, c in zip(bases, cards) if int(c) == 4 ** b[1] - 1]
-    cases = [{"gens": g, "seed": ck.rng.randrange(10 ** 6), "n": n, "kind": kind} for kind, n, g in bases for _ in range(seeds)]
+    cases = [{"gens": g, "seed": ck.rng.randrange(10 ** 6), "n": n, "kind": kind} for kind, n, g in bases for _ in range(1 if kind == "dense-random" else seeds)]
     res = ck.impl("c20", cases, per_case_s=90 if ck.quick else 300, procs=15)
     oc = ck.oracle(["closure_card %d %s" % (c["n"], " ".join(r["out"])) if r.get("out") else "closure_card 1 X" for c, r in zip(cases, res)])
+    ic = ck.oracle(["closure_card %d %s" % (c["n"], " ".join(r["independents"])) if r.get("independents") else "closure_card 1 X" for c, r in zip(cases, res)])
     nt = set()
     stats = {"by_n": {}, "changed": 0}
-    for c, r, card in zip(cases, res, oc):
+    stats["dependent_not_a_member"] = 0
+    for c, r, card, icard in zip(cases, res, oc, ic):
         n = c["n"]
         stats["by_n"][n] = stats["by_n"].get(n, 0) + 1
         if "exc" in r:
@@ -53,6 +74,15 @@ def main():
             ck.fail(None, "get_optimal_su_2_n_generators(%s) seed=%d %s" % (c["gens"], c["seed"], what), dict(c, result=r)); continue
         out = r["out"]
         bad = []
+        # the optimiser starts from get_independents(): members of the collection, in order, minus the reported dependents,
+        # and still generating everything
+        members = list(c["gens"])      # the constructor keeps repeated strings
+        if any(d not in members for d in r["dependents"]):
+            stats["dependent_not_a_member"] += 1
+        if r["independents"] != [x for x in members if x not in set(r["dependents"])]:
+            bad.append("get_independents() = %s is not the members minus the reported dependents %s" % (r["independents"], r["dependents"]))
+        if int(icard) != 4 ** n - 1:
+            bad.append("get_independents() generates %s strings, the input generates %d" % (icard, 4 ** n - 1))
         if out is None:
             bad.append("returned None")
         else:
